@@ -169,12 +169,19 @@ package verifier
 
 //@ func processPluginResponse
 //@ props C02
-//@ requires outcomeWF(outcome) && response != nil && resultsWFo(outcome) && hasAuthenticity(outcome) && noEnforcedFailure(outcome)
+//@ requires outcomeWF(outcome)
+//@ requires response != nil
+//@ requires resultsWFo(outcome)
+//@ requires hasAuthenticity(outcome)
+//@ requires noEnforcedFailure(outcome)
 //@ modifies outcome.VerificationResults, fieldsof(notation.ValidationResult, Error), elems(outcome.VerificationResults)
 //@ ensures[C02.unprocessed-attr] result == nil ==> forall(i, 0, len(outcome.EnvelopeContent.SignerInfo.SignedAttributes.ExtendedAttributes), nonPluginKey(outcome.EnvelopeContent.SignerInfo.SignedAttributes.ExtendedAttributes[i]) ==> exists(p, 0, len(response.ProcessedAttributes), response.ProcessedAttributes[p] == outcome.EnvelopeContent.SignerInfo.SignedAttributes.ExtendedAttributes[i].Key))
 //@ ensures[C02.missing-verdict] result == nil ==> forall(c, 0, len(capabilitiesToVerify), response.VerificationResults[capabilitiesToVerify[c]] != nil)
 //@ ensures[C02.results-shape] resultsWFo(outcome)
 //@ ensures[C02.enforced-failure-rejects] result == nil ==> noEnforcedFailure(outcome)
+//@ ensures[C02.results-kept] len(outcome.VerificationResults) >= old(len(outcome.VerificationResults)) && forall(r, 0, old(len(outcome.VerificationResults)), outcome.VerificationResults[r] == old(outcome.VerificationResults[r]) && outcome.VerificationResults[r].Type == old(outcome.VerificationResults[r].Type))
+//@ ensures[C02.skip-not-performed] !hasCap(capabilitiesToVerify, pluginframework.CapabilityRevocationCheckVerifier) ==> len(outcome.VerificationResults) == old(len(outcome.VerificationResults))
+//@ ensures-ghost result == nil ==> forall(i, 0, len(extAttrs(outcome)), nonPluginKey(extAttrs(outcome)[i]) ==> pluginProcessed(extAttrs(outcome)[i].Key))
 //@ ensures[C02.plugin-revocation-reported] result == nil ==> forall(c, 0, len(capabilitiesToVerify), capabilitiesToVerify[c] == pluginframework.CapabilityRevocationCheckVerifier && !response.VerificationResults[capabilitiesToVerify[c]].Success ==> exists(r, 0, len(outcome.VerificationResults), outcome.VerificationResults[r].Type == trustpolicy.TypeRevocation && outcome.VerificationResults[r].Error != nil))
 //@ loop 1 invariant forall(a, 0, rangeindex+1, exists(p, 0, len(response.ProcessedAttributes), response.ProcessedAttributes[p] == ranged()[a].Key))
 //@ loop 2 invariant outcomeWF(outcome)
@@ -182,6 +189,9 @@ package verifier
 //@ loop 2 invariant noEnforcedFailure(outcome)
 //@ loop 2 invariant hasAuthenticity(outcome)
 //@ loop 2 invariant newsince(outcome.VerificationResults) || sameobj(outcome.VerificationResults, old(outcome.VerificationResults))
+//@ loop 2 invariant fresh(outcome.VerificationResults) || sameobj(outcome.VerificationResults, old(outcome.VerificationResults))
+//@ loop 2 invariant len(outcome.VerificationResults) >= old(len(outcome.VerificationResults)) && forall(r, 0, old(len(outcome.VerificationResults)), outcome.VerificationResults[r] == old(outcome.VerificationResults[r]) && outcome.VerificationResults[r].Type == old(outcome.VerificationResults[r].Type))
+//@ loop 2 invariant (forall(c, 0, rangeindex+1, capabilitiesToVerify[c] != pluginframework.CapabilityRevocationCheckVerifier)) ==> len(outcome.VerificationResults) == old(len(outcome.VerificationResults))
 //@ loop 2 invariant forall(c, 0, rangeindex+1, response.VerificationResults[capabilitiesToVerify[c]] != nil)
 //@ loop 2 invariant forall(c, 0, rangeindex+1, capabilitiesToVerify[c] == pluginframework.CapabilityRevocationCheckVerifier && !response.VerificationResults[capabilitiesToVerify[c]].Success ==> exists(r, 0, len(outcome.VerificationResults), outcome.VerificationResults[r].Type == trustpolicy.TypeRevocation && outcome.VerificationResults[r].Error != nil))
 //@ loop 2 invariant forall(i, 0, len(outcome.EnvelopeContent.SignerInfo.SignedAttributes.ExtendedAttributes), nonPluginKey(outcome.EnvelopeContent.SignerInfo.SignedAttributes.ExtendedAttributes[i]) ==> exists(p, 0, len(response.ProcessedAttributes), response.ProcessedAttributes[p] == outcome.EnvelopeContent.SignerInfo.SignedAttributes.ExtendedAttributes[i].Key))
@@ -223,3 +233,57 @@ package verifier
 //@ ensures[C06.signing-authority] outcome.EnvelopeContent.SignerInfo.SignedAttributes.SigningScheme != signature.SigningSchemeX509 ==> (result.Error == nil) == forall(c, 0, len(chainOf(outcome)), !timeBefore(outcome.EnvelopeContent.SignerInfo.SignedAttributes.SigningTime, chainOf(outcome)[c].NotBefore) && !timeAfter(outcome.EnvelopeContent.SignerInfo.SignedAttributes.SigningTime, chainOf(outcome)[c].NotAfter))
 //@ ensures[C06.x509-scheme] outcome.EnvelopeContent.SignerInfo.SignedAttributes.SigningScheme == signature.SigningSchemeX509 && result.Error == nil && !tsApplies(trustStores, signatureVerification, outcome) ==> chainValidNow(outcome)
 //@ loop 1 invariant forall(c, 0, rangeindex+1, !timeBefore(outcome.EnvelopeContent.SignerInfo.SignedAttributes.SigningTime, chainOf(outcome)[c].NotBefore) && !timeAfter(outcome.EnvelopeContent.SignerInfo.SignedAttributes.SigningTime, chainOf(outcome)[c].NotAfter))
+
+//@ func executePlugin
+//@ props C02
+//@ requires envelopeContent != nil && forall(j, 0, len(envelopeContent.SignerInfo.CertificateChain), envelopeContent.SignerInfo.CertificateChain[j] != nil)
+//@ at call (VerifyPlugin).VerifySignature: assert[C02.plugin-request] arg1 != nil && arg1.TrustPolicy.SignatureVerification == capabilitiesToVerify && arg1.TrustPolicy.TrustedIdentities == trustedIdentities && arg1.PluginConfig == pluginConfig
+//@ ensures result1 == nil ==> result != nil
+//@ loop 1 invariant newsince(attributesToProcess)
+//@ loop 2 invariant newsince(certChain)
+
+// ---- C01 / C02 / C03: the orchestrator ----
+
+//@ ghost func pluginProcessed(key interface{}) bool
+//@ pure func hasCap(caps []pluginframework.Capability, c pluginframework.Capability) bool = exists(i, 0, len(caps), caps[i] == c)
+//@ pure func extAttrs(o *notation.VerificationOutcome) []signature.Attribute = o.EnvelopeContent.SignerInfo.SignedAttributes.ExtendedAttributes
+//@ pure func verifierWF(v *verifier) bool = v != nil && v.trustStore != nil && v.revocationTimestampingValidator != nil
+
+//@ func (*verifier).processSignature
+//@ props C01 C02 C03
+//@ requires verifierWF(v) && outcome != nil && outcome.VerificationLevel != nil && len(outcome.VerificationResults) == 0
+//@ modifies outcome.EnvelopeContent, outcome.VerificationResults, elems(outcome.VerificationResults), fieldsof(notation.ValidationResult, Error)
+//@ ensures[C01.integrity] result == nil ==> outcome.EnvelopeContent != nil && verifiedContent(outcome.EnvelopeContent, string(sigBlob), envelopeMediaType) && outcome.EnvelopeContent.Payload.ContentType == envelope.MediaTypePayloadV1
+//@ ensures[C02.results-shape] resultsWFo(outcome)
+//@ ensures[C02.enforced-failure-rejects] result == nil ==> noEnforcedFailure(outcome)
+//@ ensures[C02.order] result == nil ==> len(outcome.VerificationResults) >= 4 && outcome.VerificationResults[0].Type == trustpolicy.TypeIntegrity && outcome.VerificationResults[1].Type == trustpolicy.TypeAuthenticity && outcome.VerificationResults[2].Type == trustpolicy.TypeExpiry && outcome.VerificationResults[3].Type == trustpolicy.TypeAuthenticTimestamp
+//@ ensures[C02.skip-not-performed] result == nil && outcome.VerificationLevel.Enforcement[trustpolicy.TypeRevocation] == trustpolicy.ActionSkip ==> len(outcome.VerificationResults) == 4
+// The two clauses below are one postcondition ("on success every critical non-plugin extended attribute was
+// processed by a plugin") split by an exhaustive case distinction on installedPlugin, so that the recorded finding
+// F12b (plugin installed, not executed: the final return) is a separate obligation from every other case.
+//@ ensures-local[C02.crit-attrs-no-plugin] result == nil ==> (installedPlugin == nil ==> forall(i, 0, len(extAttrs(outcome)), extAttrs(outcome)[i].Critical && nonPluginKey(extAttrs(outcome)[i]) ==> pluginProcessed(extAttrs(outcome)[i].Key)))
+//@ ensures-local[C02.crit-attrs-plugin] result == nil ==> (installedPlugin != nil ==> forall(i, 0, len(extAttrs(outcome)), extAttrs(outcome)[i].Critical && nonPluginKey(extAttrs(outcome)[i]) ==> pluginProcessed(extAttrs(outcome)[i].Key)))
+//@ at call loadX509TrustStores: assert[C03.policy-stores] arg1 == outcome.EnvelopeContent.SignerInfo.SignedAttributes.SigningScheme && arg3 == trustStores && arg4 == v.trustStore
+//@ at call loadX509TrustStores: assert[C02.plugin-required] verificationPluginName != "" ==> installedPlugin != nil && len(pluginCapabilities) > 0 && forall(c, 0, len(pluginCapabilities), pluginCapabilities[c] == pluginframework.CapabilityRevocationCheckVerifier || pluginCapabilities[c] == pluginframework.CapabilityTrustedIdentityVerifier)
+//@ at call loadX509TrustStores: assert[C02.no-plugin] verificationPluginName == "" ==> installedPlugin == nil && len(pluginCapabilities) == 0
+//@ at call verifyAuthenticity: assert[C03.policy-stores] forall(c, 0, len(arg0), arg0[c] != nil && fromListedStore(arg0[c], trustStores, v.trustStore, ite(outcome.EnvelopeContent.SignerInfo.SignedAttributes.SigningScheme == signature.SigningSchemeX509, truststore.TypeCA, truststore.TypeSigningAuthority)))
+//@ at call verifyX509TrustedIdentities: assert[C02.capability-routing,C04.leaf-chain] !hasCap(pluginCapabilities, pluginframework.CapabilityTrustedIdentityVerifier) && arg1 == trustedIdentities && arg2 == outcome.EnvelopeContent.SignerInfo.CertificateChain
+//@ at call verifyAuthenticTimestamp: assert[C06.policy-args] arg2 == trustStores && arg3 == signatureVerification && arg4 == v.trustStore && arg5 == v.revocationTimestampingValidator && arg6 == outcome
+//@ at call (*verifier).verifyRevocation: assert[C02.capability-routing] outcome.VerificationLevel.Enforcement[trustpolicy.TypeRevocation] != trustpolicy.ActionSkip && !hasCap(pluginCapabilities, pluginframework.CapabilityRevocationCheckVerifier)
+//@ pure func segWF(o *notation.VerificationOutcome) bool = o.EnvelopeContent != nil && o.VerificationLevel != nil && resultsWFo(o) && noEnforcedFailure(o)
+//@ at call isCriticalFailure: assert[C02.segment] resultsWFo(outcome) && (sameobj(outcome.VerificationResults, old(outcome.VerificationResults)) || fresh(outcome.VerificationResults))
+//@ at call loadX509TrustStores: assert[C02.segment] segWF(outcome) && (sameobj(outcome.VerificationResults, old(outcome.VerificationResults)) || fresh(outcome.VerificationResults)) && len(outcome.VerificationResults) == 1 && outcome.VerificationResults[0].Type == trustpolicy.TypeIntegrity && verifiedContent(outcome.EnvelopeContent, string(sigBlob), envelopeMediaType) && outcome.EnvelopeContent.Payload.ContentType == envelope.MediaTypePayloadV1 && len(chainOf(outcome)) >= 1 && forall(j, 0, len(chainOf(outcome)), chainOf(outcome)[j] != nil)
+//@ at call verifyExpiry: assert[C02.segment] segWF(outcome) && (sameobj(outcome.VerificationResults, old(outcome.VerificationResults)) || fresh(outcome.VerificationResults)) && len(outcome.VerificationResults) == 2 && outcome.VerificationResults[0].Type == trustpolicy.TypeIntegrity && outcome.VerificationResults[1].Type == trustpolicy.TypeAuthenticity
+//@ at call verifyAuthenticTimestamp: assert[C02.segment] segWF(outcome) && (sameobj(outcome.VerificationResults, old(outcome.VerificationResults)) || fresh(outcome.VerificationResults)) && len(outcome.VerificationResults) == 3 && outcome.VerificationResults[0].Type == trustpolicy.TypeIntegrity && outcome.VerificationResults[1].Type == trustpolicy.TypeAuthenticity && outcome.VerificationResults[2].Type == trustpolicy.TypeExpiry
+//@ at call (*verifier).verifyRevocation: assert[C02.segment] segWF(outcome) && (sameobj(outcome.VerificationResults, old(outcome.VerificationResults)) || fresh(outcome.VerificationResults)) && len(outcome.VerificationResults) == 4 && outcome.VerificationResults[0].Type == trustpolicy.TypeIntegrity && outcome.VerificationResults[1].Type == trustpolicy.TypeAuthenticity && outcome.VerificationResults[2].Type == trustpolicy.TypeExpiry && outcome.VerificationResults[3].Type == trustpolicy.TypeAuthenticTimestamp
+//@ at call executePlugin: assert[C02.segment] segWF(outcome) && (sameobj(outcome.VerificationResults, old(outcome.VerificationResults)) || fresh(outcome.VerificationResults)) && len(outcome.VerificationResults) >= 4 && outcome.VerificationResults[0].Type == trustpolicy.TypeIntegrity && outcome.VerificationResults[1].Type == trustpolicy.TypeAuthenticity && outcome.VerificationResults[2].Type == trustpolicy.TypeExpiry && outcome.VerificationResults[3].Type == trustpolicy.TypeAuthenticTimestamp && (outcome.VerificationLevel.Enforcement[trustpolicy.TypeRevocation] == trustpolicy.ActionSkip ==> len(outcome.VerificationResults) == 4)
+//@ at call executePlugin: assert[C02.capability-routing] arg1 == installedPlugin && forall(c, 0, len(arg2), hasCap(pluginCapabilities, arg2[c]) && !(outcome.VerificationLevel.Enforcement[trustpolicy.TypeRevocation] == trustpolicy.ActionSkip && arg2[c] == pluginframework.CapabilityRevocationCheckVerifier)) && arg4 == trustedIdentities && arg5 == pluginConfig
+//@ loop 1 invariant newsince(pluginCapabilities) && forall(c, 0, len(pluginCapabilities), pluginCapabilities[c] == pluginframework.CapabilityRevocationCheckVerifier || pluginCapabilities[c] == pluginframework.CapabilityTrustedIdentityVerifier)
+//@ loop 3 invariant installedPlugin == nil && forall(i, 0, rangeindex+1, !extAttrs(outcome)[i].Critical)
+//@ loop 2 invariant outcome.EnvelopeContent != nil && outcome.VerificationLevel != nil
+//@ loop 2 invariant resultsWFo(outcome)
+//@ loop 2 invariant noEnforcedFailure(outcome)
+//@ loop 2 invariant sameobj(outcome.VerificationResults, old(outcome.VerificationResults)) || fresh(outcome.VerificationResults)
+//@ loop 2 invariant len(outcome.VerificationResults) >= 4 && outcome.VerificationResults[0].Type == trustpolicy.TypeIntegrity && outcome.VerificationResults[1].Type == trustpolicy.TypeAuthenticity && outcome.VerificationResults[2].Type == trustpolicy.TypeExpiry && outcome.VerificationResults[3].Type == trustpolicy.TypeAuthenticTimestamp
+//@ loop 2 invariant outcome.VerificationLevel.Enforcement[trustpolicy.TypeRevocation] == trustpolicy.ActionSkip ==> len(outcome.VerificationResults) == 4
+//@ loop 2 invariant newsince(capabilitiesToVerify) && forall(c, 0, len(capabilitiesToVerify), hasCap(pluginCapabilities, capabilitiesToVerify[c]) && !(outcome.VerificationLevel.Enforcement[trustpolicy.TypeRevocation] == trustpolicy.ActionSkip && capabilitiesToVerify[c] == pluginframework.CapabilityRevocationCheckVerifier))
